@@ -37,29 +37,39 @@ pub mod lock_api {
     }
 
     pub struct RwLockReadGuard<'a, R, T: ?Sized> {
-        pub(crate) g: shuttle::sync::RwLockReadGuard<'a, T>,
+        pub(crate) lock: &'a super::RwLock<T>,
         pub(crate) _r: PhantomData<R>,
     }
     impl<R, T: ?Sized> Deref for RwLockReadGuard<'_, R, T> {
         type Target = T;
         fn deref(&self) -> &T {
-            &self.g
+            unsafe { &*self.lock.data.get() }
+        }
+    }
+    impl<R, T: ?Sized> Drop for RwLockReadGuard<'_, R, T> {
+        fn drop(&mut self) {
+            self.lock.release_read();
         }
     }
 
     pub struct RwLockWriteGuard<'a, R, T: ?Sized> {
-        pub(crate) g: shuttle::sync::RwLockWriteGuard<'a, T>,
+        pub(crate) lock: &'a super::RwLock<T>,
         pub(crate) _r: PhantomData<R>,
     }
     impl<R, T: ?Sized> Deref for RwLockWriteGuard<'_, R, T> {
         type Target = T;
         fn deref(&self) -> &T {
-            &self.g
+            unsafe { &*self.lock.data.get() }
         }
     }
     impl<R, T: ?Sized> DerefMut for RwLockWriteGuard<'_, R, T> {
         fn deref_mut(&mut self) -> &mut T {
-            &mut self.g
+            unsafe { &mut *self.lock.data.get() }
+        }
+    }
+    impl<R, T: ?Sized> Drop for RwLockWriteGuard<'_, R, T> {
+        fn drop(&mut self) {
+            self.lock.release_write();
         }
     }
 }
@@ -106,43 +116,106 @@ impl<T: ?Sized> std::fmt::Debug for Mutex<T> {
     }
 }
 
-pub struct RwLock<T: ?Sized>(shuttle::sync::RwLock<T>);
+/// Writer-preferring reader-writer lock (parking_lot's policy: once a writer waits, new readers
+/// block, so a thread that re-acquires a read lock it already holds deadlocks if a writer queued
+/// in between). Built on shuttle's scheduled `Mutex` + `Condvar`: every acquisition is a scheduling
+/// point and a blocked acquisition is visible to shuttle's deadlock detector.
+pub struct RwLock<T: ?Sized> {
+    state: shuttle::sync::Mutex<RwState>,
+    cond: shuttle::sync::Condvar,
+    data: std::cell::UnsafeCell<T>,
+}
+
+#[derive(Default)]
+struct RwState {
+    readers: usize,
+    writer: bool,
+    writers_waiting: usize,
+}
+
+unsafe impl<T: ?Sized + Send> Send for RwLock<T> {}
+unsafe impl<T: ?Sized + Send + Sync> Sync for RwLock<T> {}
 
 impl<T> RwLock<T> {
     pub const fn new(v: T) -> Self {
-        RwLock(shuttle::sync::RwLock::new(v))
+        RwLock { state: shuttle::sync::Mutex::new(RwState { readers: 0, writer: false, writers_waiting: 0 }), cond: shuttle::sync::Condvar::new(), data: std::cell::UnsafeCell::new(v) }
     }
     pub fn into_inner(self) -> T {
-        self.0.into_inner().unwrap_or_else(|e| e.into_inner())
+        self.data.into_inner()
     }
 }
+
 impl<T: ?Sized> RwLock<T> {
+    fn st(&self) -> shuttle::sync::MutexGuard<'_, RwState> {
+        self.state.lock().unwrap_or_else(|e| e.into_inner())
+    }
     pub fn read(&self) -> RwLockReadGuard<'_, T> {
         note();
-        lock_api::RwLockReadGuard { g: self.0.read().unwrap_or_else(|e| e.into_inner()), _r: PhantomData }
+        let mut st = self.st();
+        while st.writer || st.writers_waiting > 0 {
+            st = self.cond.wait(st).unwrap_or_else(|e| e.into_inner());
+        }
+        st.readers += 1;
+        drop(st);
+        lock_api::RwLockReadGuard { lock: self, _r: PhantomData }
     }
     pub fn write(&self) -> RwLockWriteGuard<'_, T> {
         note();
-        lock_api::RwLockWriteGuard { g: self.0.write().unwrap_or_else(|e| e.into_inner()), _r: PhantomData }
+        let mut st = self.st();
+        st.writers_waiting += 1;
+        while st.writer || st.readers > 0 {
+            st = self.cond.wait(st).unwrap_or_else(|e| e.into_inner());
+        }
+        st.writers_waiting -= 1;
+        st.writer = true;
+        drop(st);
+        lock_api::RwLockWriteGuard { lock: self, _r: PhantomData }
     }
     pub fn try_read(&self) -> Option<RwLockReadGuard<'_, T>> {
         note();
-        match self.0.try_read() {
-            Ok(g) => Some(lock_api::RwLockReadGuard { g, _r: PhantomData }),
-            Err(shuttle::sync::TryLockError::Poisoned(e)) => Some(lock_api::RwLockReadGuard { g: e.into_inner(), _r: PhantomData }),
-            Err(shuttle::sync::TryLockError::WouldBlock) => None,
+        let mut st = self.st();
+        if st.writer || st.writers_waiting > 0 {
+            return None;
         }
+        st.readers += 1;
+        drop(st);
+        Some(lock_api::RwLockReadGuard { lock: self, _r: PhantomData })
     }
     pub fn try_write(&self) -> Option<RwLockWriteGuard<'_, T>> {
         note();
-        match self.0.try_write() {
-            Ok(g) => Some(lock_api::RwLockWriteGuard { g, _r: PhantomData }),
-            Err(shuttle::sync::TryLockError::Poisoned(e)) => Some(lock_api::RwLockWriteGuard { g: e.into_inner(), _r: PhantomData }),
-            Err(shuttle::sync::TryLockError::WouldBlock) => None,
+        let mut st = self.st();
+        if st.writer || st.readers > 0 {
+            return None;
         }
+        st.writer = true;
+        drop(st);
+        Some(lock_api::RwLockWriteGuard { lock: self, _r: PhantomData })
+    }
+    /// parking_lot's explicit recursion-safe variant: does not wait behind queued writers
+    pub fn read_recursive(&self) -> RwLockReadGuard<'_, T> {
+        note();
+        let mut st = self.st();
+        while st.writer {
+            st = self.cond.wait(st).unwrap_or_else(|e| e.into_inner());
+        }
+        st.readers += 1;
+        drop(st);
+        lock_api::RwLockReadGuard { lock: self, _r: PhantomData }
     }
     pub fn get_mut(&mut self) -> &mut T {
-        self.0.get_mut().unwrap_or_else(|e| e.into_inner())
+        self.data.get_mut()
+    }
+    fn release_read(&self) {
+        let mut st = self.st();
+        st.readers -= 1;
+        drop(st);
+        self.cond.notify_all();
+    }
+    fn release_write(&self) {
+        let mut st = self.st();
+        st.writer = false;
+        drop(st);
+        self.cond.notify_all();
     }
 }
 impl<T: Default> Default for RwLock<T> {
@@ -182,10 +255,8 @@ impl<T: ?Sized> RwLock<T> {
         RwLockUpgradableReadGuard(self.write())
     }
     pub fn is_locked(&self) -> bool {
-        match self.0.try_write() {
-            Ok(_) => false,
-            Err(_) => true,
-        }
+        let st = self.st();
+        st.writer || st.readers > 0
     }
 }
 impl<T: ?Sized> Mutex<T> {
